@@ -26,7 +26,7 @@ func init() {
 			"(f) reset_relays empties the inherited relays before they are merged, a disabled proposer-relay is not kept, unknown addresses are generated through the tier chain, unmentioned inherited relays are kept; " +
 			"(g) the version dispatch has arms for the unversioned and version-2 documents and an error default; (h) the top-level fee recipient and gas limit fall back to Vouch's own values when absent; " +
 			"(i) for every JSON shadow struct the fields written by MarshalJSON are the fields read by UnmarshalJSON and unit scalings are inverse pairs (Milliseconds()/x time.Millisecond, Div(weiPerETH)/Mul(weiPerETH)). " +
-			"Added with the third seeding round: (k) a legacy builder's relay list is read only under its own Enabled flag; (l) a resolver that remembers results keys them by every parameter it uses; (b) also accepts a first-present helper called with the tiers in precedence order. Added with the fourth seeding round: (m) the proposers list keeps document order; (n) tiers are written least specific first onto a relay object. Added with the fifth seeding round: (f, extended) every relay inherited from the fallback is recorded in the result; (o) nothing is copied or stored through a pointer-typed field of a relay result. Added with the sixth seeding round and the false-alarm regression: (p) numbers in the configuration documents are parsed with base 10; (q) every return of the account-naming helper is the joined wallet/account form; (g) also recognises a dispatch table keyed by version. Added with the ninth seeding round: (r) the factor between ether (as configured) and wei (as compared) is 10^18 wherever it is declared. NOT decided: the value-level lattice for arbitrary documents, regexp semantics, round-trip equality of meaning.",
+			"Added with the third seeding round: (k) a legacy builder's relay list is read only under its own Enabled flag; (l) a resolver that remembers results keys them by every parameter it uses; (b) also accepts a first-present helper called with the tiers in precedence order. Added with the fourth seeding round: (m) the proposers list keeps document order; (n) tiers are written least specific first onto a relay object. Added with the fifth seeding round: (f, extended) every relay inherited from the fallback is recorded in the result; (o) nothing is copied or stored through a pointer-typed field of a relay result. Added with the sixth seeding round and the false-alarm regression: (p) numbers in the configuration documents are parsed with base 10; (q) every return of the account-naming helper is the joined wallet/account form; (g) also recognises a dispatch table keyed by version. Added with the ninth seeding round: (r) the factor between ether (as configured) and wei (as compared) is 10^18 wherever it is declared. Added with the tenth seeding round: (s) every non-nil result of the block relay's ProposerConfig is the configurator's answer to this call, or the fallback literal. NOT decided: the value-level lattice for arbitrary documents, regexp semantics, round-trip equality of meaning.",
 		Technique: "guard/edge-deletion queries keyed by access path (tested-X-used-X, tier precedence), string-shape analysis, writer/reader field-table agreement of sibling marshalers, loop-exit path queries",
 		Rule:      "one obligation per dereference (a), per tiered store (b), per options call (c), per match site (d), per compiled specifier (e), per relay-set operation (f), per version arm (g), per fallback use (h), per marshaler pair (i)",
 	})
@@ -61,21 +61,58 @@ func runC10(p *core.Prog, r *core.Report, tier string) {
 			}
 			fresh := true
 			what := ""
+			okValue := func(v ssa.Value) bool {
+				if core.IsNilConst(v) {
+					return true
+				}
+				if _, isFresh := v.(*ssa.Alloc); isFresh {
+					return true // the fallback settings, built on the spot
+				}
+				if ex, isEx := v.(*ssa.Extract); isEx {
+					if call, ok := ex.Tuple.(*ssa.Call); ok && core.MethodName(call.Common()) == "ProposerConfig" {
+						return true
+					}
+				}
+				return false
+			}
 			for _, lf := range core.PhiLeaves(core.Unspill(ret.Results[0]), ret) {
-				if core.IsNilConst(lf.V) {
+				if okValue(lf.V) {
 					continue
 				}
-				if _, isFresh := lf.V.(*ssa.Alloc); isFresh {
-					continue // the fallback settings, built on the spot
-				}
-				ex, isEx := lf.V.(*ssa.Extract)
-				if isEx {
-					if call, ok := ex.Tuple.(*ssa.Call); ok && core.MethodName(call.Common()) == "ProposerConfig" {
-						continue
+				// a result variable that is filled by a callback (a helper that holds the lock calls back): every value
+				// stored into it, here or in the function's literals
+				if ld, isLoad := lf.V.(*ssa.UnOp); isLoad && ld.Op == token.MUL {
+					if cell, isCell := ld.X.(*ssa.Alloc); isCell {
+						allOK, nStores := true, 0
+						for _, g := range core.WithClosures(pc) {
+							core.EachInstr(g, func(in ssa.Instruction) {
+								st, ok := in.(*ssa.Store)
+								if !ok {
+									return
+								}
+								addr := st.Addr
+								if fv, isFV := addr.(*ssa.FreeVar); isFV {
+									addr = core.FreeVarBinding(fv)
+								}
+								if addr != ssa.Value(cell) {
+									return
+								}
+								nStores++
+								if !okValue(st.Val) {
+									allOK = false
+									what = ds.D(st.Val).String()
+								}
+							})
+						}
+						if allOK && nStores > 0 {
+							continue
+						}
 					}
 				}
 				fresh = false
-				what = ds.D(lf.V).String()
+				if what == "" {
+					what = ds.D(lf.V).String()
+				}
 			}
 			r.Check(fresh, "C10.s", fmt.Sprintf("%s|return#%d|resolved-for-this-call", core.FnKey(pc), k+1), p.Pos(ret.Pos()), "the settings returned are the configurator's answer to this call", "the settings returned are "+what+", not the configurator's answer to this (account, key) pair: an answer remembered under part of the key is served to lookups that would resolve differently")
 		}
